@@ -6,6 +6,7 @@
 -/
 import SlacModel.TimeCore
 import SlacModel.Generated.SrcTime
+import SlacModel.Generated.SrcStdlib
 import SlacProps.C16
 set_option autoImplicit false
 namespace Slac.C16Source
@@ -63,6 +64,50 @@ theorem isLeapYear_is_source (ps : List (Value N)) : Time.isLeapYear ps = SrcTim
   · simp only [Time.isLeapYear, SrcTime.is_leap_year, decode_is_source, bind, Except.bind, Except.map]
     cases SrcTime.try_from a <;> rfl
   · rfl
+
+theorem encodeDate_is_source (ps : List (Value N)) : Time.encodeDate ps = SrcTime.encode_date ps := by
+  rcases ps with _ | ⟨a, _ | ⟨b, _ | ⟨c, _ | ⟨d, r⟩⟩⟩⟩
+  · rfl
+  · cases a <;> rfl
+  · cases a <;> cases b <;> rfl
+  · cases a <;> cases b <;> cases c <;> try rfl
+    rename_i y m d
+    simp only [Time.encodeDate, SrcTime.encode_date]
+    by_cases hv : validDate (NumX.toI32 y) (NumX.toU32 m) (NumX.toU32 d) = true
+    · simp only [hv, if_true, Option.map_some]; rfl
+    · have hv' : validDate (NumX.toI32 y) (NumX.toU32 m) (NumX.toU32 d) = false := by simpa using hv
+      simp only [hv', Bool.false_eq_true, if_false, Option.map_none]; rfl
+  · cases a <;> cases b <;> cases c <;> rfl
+
+theorem encodeTime_is_source (ps : List (Value N)) : Time.encodeTime ps = SrcTime.encode_time ps := by
+  unfold Time.encodeTime SrcTime.encode_time
+  have hdn : Stdlib.defaultNumber ps 3 (NumOps.zero : N) = SrcStdlib.default_number ps 3 (NumOps.zero : N) := by
+    unfold Stdlib.defaultNumber SrcStdlib.default_number
+    cases ps[3]? with
+    | none => rfl
+    | some v => cases v <;> rfl
+  rw [hdn]
+  cases SrcStdlib.default_number ps 3 (NumOps.zero : N) with
+  | error e => rfl
+  | ok milli =>
+    simp only [bind, Except.bind]
+    rcases ps with _ | ⟨a, _ | ⟨b, _ | ⟨c, r⟩⟩⟩
+    · rfl
+    · cases a <;> rfl
+    · cases a <;> cases b <;> rfl
+    · cases a <;> cases b <;> cases c <;> try rfl
+      rename_i h m sx
+      simp only [List.all_cons, List.all_nil, Bool.and_true]
+      by_cases hg : (NumX.ge0 h && NumX.ge0 m && NumX.ge0 sx && NumX.ge0 milli) = true
+      · have hg' : (NumX.ge0 h && (NumX.ge0 m && (NumX.ge0 sx && NumX.ge0 milli))) = true := by simpa [Bool.and_assoc] using hg
+        simp only [hg, hg', if_true]
+        by_cases hv : validTime (NumX.toU32 h) (NumX.toU32 m) (NumX.toU32 sx) (NumX.toU32 milli) = true
+        · simp only [hv, if_true, Option.map_some, SrcTime.from_datetime, DT.totalMs, Int.zero_mul, Int.zero_add]
+        · have hv' : validTime (NumX.toU32 h) (NumX.toU32 m) (NumX.toU32 sx) (NumX.toU32 milli) = false := by simpa using hv
+          simp only [hv', Bool.false_eq_true, if_false, Option.map_none]; rfl
+      · have hg1 : (NumX.ge0 h && NumX.ge0 m && NumX.ge0 sx && NumX.ge0 milli) = false := by simpa using hg
+        have hg' : (NumX.ge0 h && (NumX.ge0 m && (NumX.ge0 sx && NumX.ge0 milli))) = false := by simpa [Bool.and_assoc] using hg1
+        simp only [hg1, hg', Bool.false_eq_true, if_false]; rfl
 
 /-- C16's central theorem restated about the functions translated from the source: for every valid date of years 1–9999 and every millisecond of the
     day, converting the date-time to a number (`impl From<NaiveDateTime> for Value`) and back (`impl TryFrom<&Value> for NaiveDateTime`) is the identity -/
